@@ -13,7 +13,7 @@ import numpy as np
 warnings.filterwarnings("ignore")
 np.seterr(all="ignore")
 sys.path.insert(0, os.path.dirname(os.path.dirname(os.path.abspath(__file__))))
-from hypnotoad.core.equilibrium import Point2D, PsiContour, SolutionError  # noqa: E402
+from hypnotoad.core.equilibrium import FineContour, Point2D, PsiContour, SolutionError  # noqa: E402
 
 F = np.float64
 
@@ -81,6 +81,25 @@ def run_case(c):
         try:
             new = ct.getRefined(skip_endpoints=c["skip"], psi=psi)
             return ["done", [[float(q.R).hex(), float(q.Z).hex()] for q in new.points], int(new.startInd), int(new.endInd)]
+        except SolutionError:
+            return ["fail"]
+        except IndexError:
+            return ["fail"]
+    if c["kind"] == "fine":
+        # FineContour.refine: the same tangents / skip_endpoints logic on the positions array, every point refined by the PARENT contour's refinePoint
+        pts = [Point2D(F(fh(a)), F(fh(b))) for a, b in c["pts"]]
+        parent = contour([Point2D(0.0, 0.0), Point2D(1.0, 0.0)], psival, settings={"refine_methods": c["methods"], "refine_atol": float(atol), "refine_width": width})
+        fc = object.__new__(FineContour)
+        fc.positions = np.array([[float(q.R), float(q.Z)] for q in pts])
+        fc.startInd, fc.endInd = c["si"], c["ei"]
+        fc.parentContour = parent
+
+        class UO:
+            refine_timeout = None
+        fc.user_options = UO()
+        try:
+            fc.refine(psi=psi, skip_endpoints=c["skip"])
+            return ["done", [[float(a).hex(), float(b).hex()] for a, b in fc.positions], int(fc.startInd), int(fc.endInd)]
         except SolutionError:
             return ["fail"]
         except IndexError:
